@@ -1738,6 +1738,9 @@ func stdIntrinsic(name string, fn *ssa.Function) intrinsicFn {
 			if s, _ := a[0].(*SliceV); s == nil || (s.LenT == nil && s.Len == 0) {
 				return x.newErr("unexpected end of JSON input")
 			}
+			if n, ok := normStr(sv.(*StrV)).(*Term); ok && n.IsConc() && strings.TrimLeft(n.C.(string), " \t\r\n") == "" {
+				return x.newErr("unexpected end of JSON input") // nothing but blanks
+			}
 			if n, ok := normStr(sv.(*StrV)).(*Term); ok && n.IsConc() && n.C.(string) == "null" {
 				// JSON null: pointers, maps, slices and interfaces become nil; other targets are left untouched
 				if dst, _ := a[1].(*IfaceV); dst != nil {
